@@ -468,6 +468,31 @@ func genSynth(prog *Program, p *Pkg) (string, error) {
 	return out.String(), nil
 }
 
+// enclosingMapRange returns the map type ranged over by the innermost map-range loop that encloses loop.
+func enclosingMapRange(info *types.Info, fd *ast.FuncDecl, loop ast.Stmt) *types.Map {
+	var stack []ast.Node
+	var found *types.Map
+	ast.Inspect(fd.Body, func(n ast.Node) bool {
+		if n == nil {
+			stack = stack[:len(stack)-1]
+			return true
+		}
+		if n == ast.Node(loop) {
+			for i := len(stack) - 1; i >= 0; i-- {
+				if rs, ok := stack[i].(*ast.RangeStmt); ok {
+					if mt, ok := info.TypeOf(rs.X).Underlying().(*types.Map); ok {
+						found = mt
+						break
+					}
+				}
+			}
+		}
+		stack = append(stack, n)
+		return true
+	})
+	return found
+}
+
 func (g *synthGen) knownSpecName(n string) bool {
 	if strings.HasPrefix(n, "V_") {
 		return true
@@ -559,19 +584,29 @@ func (g *synthGen) freeLocals(goExpr string, loop ast.Stmt, fd *ast.FuncDecl) (p
 			if bound[x.Name] > 0 || seen[x.Name] {
 				return
 			}
-			if x.Name == "visited" || x.Name == "idx" {
+			if x.Name == "visited" || x.Name == "idx" || x.Name == "ranged" {
 				if _, obj := scope.LookupParent(x.Name, bodyPos); obj == nil {
 					seen[x.Name] = true
 					if x.Name == "idx" {
 						params = append(params, "idx int")
-					} else {
+					} else if x.Name == "ranged" {
+						// the value of the range operand (evaluated once, before the first iteration)
 						if rangeX == nil {
-							err = fmt.Errorf("'visited' used on a non-range loop")
+							err = fmt.Errorf("'ranged' used on a non-range loop")
 							return
 						}
-						mt, ok := info.TypeOf(rangeX).Underlying().(*types.Map)
-						if !ok {
-							err = fmt.Errorf("'visited' used on a non-map range")
+						params = append(params, "ranged "+g.typeStr(info.TypeOf(rangeX)))
+					} else {
+						var mt *types.Map
+						if rangeX != nil {
+							mt, _ = info.TypeOf(rangeX).Underlying().(*types.Map)
+						}
+						if mt == nil {
+							// a loop nested in a map range may speak about the enclosing loop's visited set
+							mt = enclosingMapRange(info, fd, loop)
+						}
+						if mt == nil {
+							err = fmt.Errorf("'visited' used on a loop that is neither a map range nor nested in one")
 							return
 						}
 						params = append(params, "visited V_Set["+g.typeStr(mt.Key())+"]")
